@@ -7,7 +7,8 @@ import JSight.Number
 import JSight.Formats
 import JSight.Rfc
 import JSight.SimTrailing
-import JSight.OMap
+import JSight.ErrPos
+import JSight.OMapOps
 import Driver.Common
 import Driver.Sem
 import Driver.SemA
@@ -81,6 +82,45 @@ def len (bs : List UInt8) : String :=
   match length bs with | .ok n => s!"LEN {n}" | .error e => showErr e
 end DEnum
 
+namespace DOMap
+open OMap
+def pred (p : Nat) (k v : Nat) : Bool :=
+  match p with | 0 => k != 0 | 1 => v % 2 == 0 | 2 => false | _ => true
+def showKV (l : List (Nat × Nat)) : String := ",".intercalate (l.map fun e => s!"{e.1}={e.2}")
+def showObs (tag : String) : Obs Nat Nat → String
+  | .unit => "-"
+  | .visit l => s!"{tag} {showKV l}"
+  | .found (some e) => s!"found {e.1}={e.2}"
+  | .found none => "none"
+  | .got (some v) => if tag == "val" then s!"val {v}" else s!"some {v}"
+  | .got none => if tag == "val" then "val -1" else "none"
+  | .bool b => s!"has {b}"
+  | .nat n => s!"len {n}"
+def parseOp (w : List String) : Option (Op Nat Nat × String) :=
+  match w with
+  | ["S", k, v] => some (.set k.toNat! v.toNat!, "")
+  | ["U", k] => some (.update k.toNat! (· + 10), "")
+  | ["D", k] => some (.delete k.toNat!, "")
+  | ["F", p] => some (.filter (pred p.toNat!), "visit")
+  | ["M"] => some (.map (fun _ v => v + 1), "visit")
+  | ["Q", p] => some (.find (pred p.toNat!), "")
+  | ["G", k] => some (.get k.toNat!, "some")
+  | ["V", k] => some (.get k.toNat!, "val")
+  | ["H", k] => some (.has k.toNat!, "")
+  | ["L"] => some (.len, "")
+  | ["E"] => some (.each, "each")
+  | ["A"] => some (.each, "each")
+  | _ => none
+def handle (rest : String) : String :=
+  let ops := (rest.splitOn ";").map (fun o => (o.trimAscii.toString.splitOn " ").filter (· ≠ ""))
+  let rec go (m : M Nat Nat) (acc : List String) : List (List String) → String
+    | [] => "|".intercalate (acc.reverse ++ [s!"final {showKV m.entries}", toString m.len])
+    | w :: ws => match parseOp w with
+      | none => if w.isEmpty then go m acc ws else "bad-op"
+      | some (op, tag) => let (m', o) := m.step op; go m' (showObs tag o :: acc) ws
+  go M.empty [] ops
+end DOMap
+
 /-- the remainder of the line after the first word -/
 def restOf (line : String) : String :=
   match line.splitOn " " with
@@ -102,6 +142,10 @@ def handle (line : String) : String :=
      | "C" => (match JsonScan.checkS false bs with | .ok _ => "OK" | .error e => JsonScan.showErrS e)
      | "D" => (match JsonScan.checkS true bs with | .ok _ => "OK" | .error e => JsonScan.showErrS e)
      | "L" => (match JsonScan.lengthS true bs with | .ok n => s!"LEN {n}" | .error e => JsonScan.showErrS e)
+     -- the span-free machine the C05 / C07 / C17 theorems are stated about
+     | "c" => if JsonScan.check false bs then "1" else "0"
+     | "d" => if JsonScan.check true bs then "1" else "0"
+     | "P" => (match Sim.errPos JsonScan.Cfg.init (bs.map JsonScan.classify) 0 with | some j => s!"POS {j}" | none => "NOPOS")
      | _ => "bad-op")
   | "rfc" :: m :: r =>
     let cs := (unhex (r.headD "")).map JsonScan.classify
@@ -132,6 +176,7 @@ def handle (line : String) : String :=
       | _, _ => "ERR")
   | ["fmt", "U", hx] => if Formats.uuidOK (unhex hx) then "OK" else "ERR"
   | ["fmt", "D", hx] => if Formats.dateOK (unhex hx) then "OK" else "ERR"
+  | "omap" :: _ => DOMap.handle (restOf line)
   | "sem" :: _ => DSem.handle (restOf line)
   | "sema" :: _ => DSemA.handle (restOf line)
   | "semb" :: _ => DSemB.handle (restOf line)
